@@ -6,18 +6,23 @@
    input  = (tree cells obs ops)
      tree  = (0 id en) leaf | (1) no-op | (2 t ...) NewTee | (3 t h) RegisterHooks
            | (4 t en) NewIncreaseLevelCore (on error the wrapped core is kept and the error counted)
-           | (5 t) sampler | (6 t) NewLazyWith | (7 t) t.With(fields)
+           | (5 t) sampler that never drops (first = 2^30) | (6 t) NewLazyWith | (7 t) t.With(fields)
+           | (8 t first thereafter) NewSamplerWithOptions(t, 1h, first, thereafter): it really drops
      en    = (0 t) zapcore.Level t | (1 a) AtomicLevel cell a | (2 #tbl) LevelEnablerFunc, tbl[l+128] <> 0
      cells = (v ...) initial AtomicLevel values;  obs = (id ...) leaves that are observer cores
      op    = (0 a v) SetLevel | (1 fam l) log call | (2 l) Core.Enabled(l)
            | (3) (Logger.Level, LevelOf(core)) | (4 n) zapgrpc V(n) | (5) logger = logger.With(fields)
    observation = (nerr (o ...)), one o per op:
-     call -> ((ev ...) (count ...) evals): ev = (0 id)/(1 h) in write order for IO leaves and hooks,
-             count per observer leaf, evals = user payload evaluations;  others -> value or () *)
+     call -> ((ev ...) (count ...) evals ((k d) ...)): ev = (0 id)/(1 h) in write order for IO leaves and
+             hooks, count per observer leaf, evals = user payload evaluations, (k d) = the decision
+             sampler number k (pre-order position among the samplers of the tree) reported through its
+             SamplerHook during the call, d = 1 dropped / 0 sampled;  others -> value or ()
+   The oracle takes the samplers' decisions from the observation (which entries a sampler drops is
+   C11's) and judges the delivery given them; the model predicts them with sampler.go's counters. *)
 From Coq Require Import List ZArith Bool Lia Arith.
 From Coq.Strings Require Import Byte.
 Import ListNotations.
-From Zap Require Import Base.Wire C05.Cores.
+From Zap Require Import Base.Wire C05.Cores C05.Sampling.
 Open Scope Z_scope.
 
 Definition tbl_fn (tb : list bool) : level -> bool := fun l => nth (Z.to_nat (l + 128)) tb false.
@@ -42,6 +47,7 @@ Fixpoint build_with (ok : world -> core -> enabler -> bool) (w : world) (s : sx)
       | 4, [c; en] => let '(c', n) := build_with ok w c in
                       if ok w c' (dec_en en) then (Filter c' (dec_en en), n) else (c', S n)
       | 5, [c] => let '(c', n) := build_with ok w c in (Sampled c', n)
+      | 8, [c; _; _] => let '(c', n) := build_with ok w c in (Sampled c', n)
       | 6, [c] => let '(c', n) := build_with ok w c in (Lazy c', n)
       | 7, [c] => let '(c', n) := build_with ok w c in (with_core c', n)
       | _, _ => (Nop, 0%nat)
@@ -49,11 +55,38 @@ Fixpoint build_with (ok : world -> core -> enabler -> bool) (w : world) (s : sx)
   | _ => (Nop, 0%nat)
   end.
 
+(* (first, thereafter) of every sampler, in pre-order: the numbering of C05/Sampling.v (NewTee's
+   collapsing, a rejected increase and With keep the order of the samplers) *)
+Fixpoint sparams (s : sx) {struct s} : list (Z * Z) :=
+  match s with
+  | SL (SZ tag :: args) =>
+      match tag, args with
+      | 2, cs => flat_map sparams cs
+      | 3, [c; _] => sparams c
+      | 4, [c; _] => sparams c
+      | 5, [c] => (1073741824, 0) :: sparams c
+      | 6, [c] => sparams c
+      | 7, [c] => sparams c
+      | 8, [c; fi; th] => (sx_z fi, sx_z th) :: sparams c
+      | _, _ => []
+      end
+  | _ => []
+  end.
+
 Definition dec_fam (z : Z) : fam :=
   match z with
   | 0 => FLogger | 1 => FCheck | 2 => FSugar | 3 => FSugarf | 4 => FSugarw | 5 => FSugarln
   | 6 => FZapio | 7 => FStdLog | 8 => FGrpcDirect | 9 => FGrpcLn | 10 => FGrpcPrint | _ => FGrpcPrintln
   end.
+
+(* the message a front-end family logs in the harness: 0 "m", 1 "payload" (formatted from the
+   Stringer argument), 2 "line" (zapio) - the sampler counts per level and message *)
+Definition msg_class (f : fam) : nat :=
+  match f with
+  | FLogger | FCheck | FSugarw | FStdLog => 0
+  | FZapio => 2
+  | _ => 1
+  end%nat.
 
 Inductive op :=
 | OSet (a : nat) (v : Z) | OCall (f : fam) (l : level) | OEnabled (l : level)
@@ -88,29 +121,43 @@ Definition next_state (w : world) (c : core) (o : op) : world * core :=
   end.
 
 (* ---------------- the model's observation ---------------- *)
-Definition model_op (obs : list nat) (w : world) (c : core) (o : op) : sx :=
+Definition enc_report (dec : decisions) (k : nat) : sx := SL [of_nat k; of_bool (dec k)].
+(* the samplers an observation reports as having dropped the entry *)
+Definition reported_drop (reports : list sx) : decisions :=
+  fun k => existsb (fun r => Nat.eqb (sx_n (sx_nth r 0)) k && sx_bool (sx_nth r 1)) reports.
+
+Definition model_op (obs : list nat) (ps : list (Z * Z)) (st : counters) (w : world) (c : core) (o : op) : sx :=
   match o with
   | OSet _ _ | OWith => SL []
   | OCall f l =>
-      let ws := call_writers w c f l in
+      let dec := counter_dec st ps l (msg_class f) in
+      let ws := call_writers_s dec w c f l in
       SL [SL (map enc_event (filter (visible obs) ws));
           SL (map (fun id => of_nat (count id (leaves_of ws))) obs);
-          of_nat (payload_evals w c (is_io obs) f l)]
+          of_nat (payload_evals_s dec w c (is_io obs) f l);
+          SL (map (enc_report dec) (call_consulted dec w c f l))]
   | OEnabled l => of_bool (enabled w c l)
   | OLevel => SL [SZ (level_of w c); SZ (level_of w c)]
   | OV n => of_bool (grpc_v w c n)
   end.
-Fixpoint model_ops (obs : list nat) (w : world) (c : core) (ops : list op) : list sx :=
+(* the counters after the operation: every sampler reached by the call has counted the entry *)
+Definition next_counters (ps : list (Z * Z)) (st : counters) (w : world) (c : core) (o : op) : counters :=
+  match o with
+  | OCall f l => let m := msg_class f in bump st (call_consulted (counter_dec st ps l m) w c f l) l m
+  | _ => st
+  end.
+Fixpoint model_ops (obs : list nat) (ps : list (Z * Z)) (st : counters) (w : world) (c : core) (ops : list op) : list sx :=
   match ops with
   | [] => []
-  | o :: r => model_op obs w c o :: (let '(w', c') := next_state w c o in model_ops obs w' c' r)
+  | o :: r => model_op obs ps st w c o ::
+              (let '(w', c') := next_state w c o in model_ops obs ps (next_counters ps st w c o) w' c' r)
   end.
 
 Definition model (i : sx) : sx :=
   let w0 := world_of (sx_nth i 1) in
   let obs := map sx_n (sx_l (sx_nth i 2)) in
   let '(c, nerr) := build_with increase_ok w0 (sx_nth i 0) in
-  SL [of_nat nerr; SL (model_ops obs w0 c (map dec_op (sx_l (sx_nth i 3))))].
+  SL [of_nat nerr; SL (model_ops obs (sparams (sx_nth i 0)) (fun _ _ _ => 0) w0 c (map dec_op (sx_l (sx_nth i 3))))].
 
 (* ---------------- the oracle ---------------- *)
 Fixpoint nat_list_eqb (a b : list nat) : bool :=
@@ -138,7 +185,9 @@ Definition spec_op (obs : list nat) (w : world) (c : core) (o : op) (x : sx) : b
   | OSet _ _ | OWith => true
   | OCall f l =>
       let ws := map dec_event (sx_l (sx_nth x 0)) in
-      let d := delivered w c l in
+      (* the samplers that reported a drop during this call; the leaves beneath them are excused *)
+      let dec := reported_drop (sx_l (sx_nth x 3)) in
+      let d := delivered_s dec w c 0 l in
       let ev := sx_n (sx_nth x 2) in
       let fields := if carries_fields f then length (filter (is_io obs) d) else 0%nat in
       (* every IO leaf on an enabled path, in tree order, and no other *)
@@ -146,10 +195,11 @@ Definition spec_op (obs : list nat) (w : world) (c : core) (o : op) (x : sx) : b
       (* every observer leaf as often as it lies on an enabled path *)
       nat_list_eqb (map sx_n (sx_l (sx_nth x 1))) (map (fun id => count id d) obs) &&
       (* hooks: once per hooked core whose wrapped core accepts, never otherwise *)
-      nat_list_eqb (hooks_of ws) (hooks_due w c l) &&
+      nat_list_eqb (hooks_of ws) (hooks_due_s dec w c 0 l) &&
       (* payload evaluations: one marshalling per IO leaf written; the message is formatted once
-         when the entry is delivered, never when it is disabled below DPanic (from DPanic upwards a
-         disabled call may still build the message for the terminal action) *)
+         when the level is enabled (a sampler may still drop the entry afterwards), never when it is
+         disabled below DPanic (from DPanic upwards a disabled call may still build the message for
+         the terminal action) *)
       (if accepts w c l then Nat.eqb ev (fields + (if formats_message f then 1 else 0))
        else if l <? DPanicL then Nat.eqb ev 0
        else Nat.leb ev (if formats_message f then 1 else 0))
